@@ -683,6 +683,19 @@ def main(prop_module, argv=None):
         return fan_out(prop_module, prop, level, a.tier, a.seed, nworkers)
     ctx = Ctx(prop, a.tier, a.seed, level, worker=a.worker or 0, workers=nworkers if a.worker is not None else 1)
     try:
+        if a.replay and a.replay.endswith(".bin"):
+            # saved libFuzzer input "fuzz-<target>-<sha>.bin": re-executed by the target binary without the allow-list (strict mode)
+            from . import fuzzrun
+            m = os.path.basename(a.replay).split("-")
+            target = m[1] if len(m) >= 3 else ""
+            if not fuzzrun.build(print):
+                return 2
+            crashed, out = fuzzrun.replay(target, a.replay, strict=True)
+            if crashed:
+                print("VIOLATION property=%s replay=%s\n  %s" % (prop, a.replay, out[-1500:]))
+                return 1
+            print("replay: input passes now")
+            return 0
         if a.replay:
             prop_module.setup(ctx)
             with open(a.replay) as f:
